@@ -496,6 +496,34 @@ func (fc *FuncCtx) execReturn(st *State, x *ast.ReturnStmt) {
 			vals[i] = st.vars[rv]
 		}
 	}
+	if fc.contract != nil && fc.contract.Opts["constructor"] != "" && len(fc.inlineStack) == 0 {
+		// a constructor hands out a fresh object: ghost fields defined from another field (`ghost field T.g = f`)
+		// take their value from that field now, however the object was put together
+		for i, v := range vals {
+			pt, ok := v.T.Underlying().(*types.Pointer)
+			if !ok {
+				continue
+			}
+			si := fc.reg().StructInfo(pt.Elem())
+			if si == nil {
+				continue
+			}
+			inner := fc.reg().deref(v)
+			changed := false
+			for _, f := range si.Fields {
+				if f.Ghost && f.Init != "" {
+					if src, ok := fc.reg().fieldOf(inner, f.Init); ok {
+						inner = fc.compact(fc.reg().withField(inner, f.Name, src.S))
+						changed = true
+					}
+				}
+			}
+			if changed {
+				// only a non-nil result is an object
+				vals[i] = Term{S: ite(fc.reg().isNil(v), v.S, fc.reg().ref(inner, v.T).S), T: v.T}
+			}
+		}
+	}
 	fc.returns = append(fc.returns, st)
 	fc.retVals = append(fc.retVals, vals)
 	if len(fc.inlineStack) > 0 {
